@@ -83,6 +83,32 @@ CHECKS['C13'] = dict(
    note='real-code schedules sampled, not enumerated; known finding: a copy/move that throws inside the handler outside the guarded push wedges the queue (DESIGN 6.7)',
    technique='PlusCal protocol model checked by TLC + TLC linearizability validation of recorded real histories against PQAbs',
    design='4 (C13), 6.7')
+CHECKS['C05'] = dict(
+   text='TLC enumerates, for every size <= 12 (14 thorough), several grains and both kinds of split (middle split and the partitioners proportional split '
+        'with its rounding), every split tree a partitioner may produce on a blocked_range: non-empty, disjoint, exact cover, simple_partitioner chunk bounds. '
+        'The subranges handed to the bodies of real parallel_for runs (1-d: 13 sizes x 5 grains x 4 partitioners; 2d/3d/nd; first/last/step; parallel_for_each '
+        'with feeder; parallel_invoke; sizes 2^24+-1, 2^31+-1, 2^32+5, 2^40+3, 2^64-2) on 3 logical threads under seeded random cooperative schedules - the '
+        'schedule decides the steal pattern that drives the adaptive partitioners - are validated by TLC against RangeCover.',
+   note='the depth/divisor/steal-feedback logic of auto/static/affinity partitioners is exercised on the real code only (the model lets them stop splitting anywhere); steal patterns sampled; float split point above 2^24 validated as legal, not predicted',
+   technique='TLA+ function specification of range splitting checked by TLC + TLC trace validation of recorded subranges against RangeCover',
+   design='4 (C05)')
+CHECKS['C06'] = dict(
+   text='TLC model-checks Reduce (lazy Body split when the left sibling is still running, zombie Body, join in fold_tree) over complete trees with 4 and 8 '
+        'leaves and every start/finish order: result = left-to-right fold, every Body always holds a contiguous interval. Real parallel_reduce (imperative x4 '
+        'partitioners, functional form), parallel_deterministic_reduce (leaf set, join tree and float bit pattern compared between a 3-thread and a 1-thread run), '
+        'parallel_scan (final pass exactly once per element with the right prefix) and parallel_sort (equal keys, one inversion at a seed-dependent position, '
+        'sizes 499/500/501/1000) with symbolic operands under seeded random cooperative schedules are validated by TLC against AlgoAbs.',
+   note='steal patterns sampled; for parallel_sort above 12 elements the recorder decides sorted/permutation and TLC only checks the flags (stated weak spot)',
+   technique='TLA+ protocol model checked by TLC + TLC trace validation of symbolic results against AlgoAbs',
+   design='4 (C06), 5')
+CHECKS['C07'] = dict(
+   text='TLC model-checks Pipeline (stage tasks, per-filter input_buffer with low/high tokens, parked ring with growth, token accounting, input-task recycling) '
+        'for six mode strings: serial exclusivity, token bound, no duplicate, common in-order sequence, ring indexing, completion, no deadlock. Filter-body '
+        'begin/end events of real parallel_pipeline runs for all 39 mode strings of length <= 3 plus six of length 4, token limits 1..3, 0..5 items, '
+        'seed-derived per-item stage delays, on 3 logical threads under seeded random cooperative schedules are validated by TLC against PipeAbs.',
+   note='arrival orders sampled; the protocol model is bound to the code through the abstract events only (no step replay)',
+   technique='TLA+ protocol model checked by TLC + TLC trace validation of filter events against PipeAbs',
+   design='4 (C07)')
 REASON_PENDING = 'check not built yet in this round (planned in DESIGN.md section 4); no verdict is claimed'
 m = {
  'version': 1,
